@@ -78,6 +78,8 @@ def check_pkg(case):
 def run(ctx):
     from props import c01_deductive
     c01_deductive.run(ctx)
+    from contracts import c_export
+    ctx.verify(c_export.names_engine(), c_export.VERIFY_NAMES)
     cases = itertools.chain(design_family(ctx.tier, ctx.seed), extra_programs(), edited_programs(), faulted_programs())
     ctx.run_bounded("wf_package(to_proto(design))", cases, check_pkg,
                     rule=RULE + "; plus Series/MosStack/Wrapper over small parameter ranges; modules whose names were "
